@@ -322,7 +322,7 @@ void SimulateF100L::bit_ops(uint16_t opcode)
         switch (r)
         {
           case 2: cr.value = data32 & 0xffff; break;
-          case 3: memory->write16(pc - 2, data32 & 0xffff); break;
+          case 3: memory->write16((uint16_t)(pc - 2), data32 & 0xffff); break;
           default: accum = data32 & 0xffff; break;
         }
       }
@@ -350,7 +350,7 @@ void SimulateF100L::bit_ops(uint16_t opcode)
         switch (r)
         {
           case 2: cr.value = data32 & 0xffff; break;
-          case 3: memory->write16(pc - 2, data32 & 0xffff); break;
+          case 3: memory->write16((uint16_t)(pc - 2), data32 & 0xffff); break;
           default: accum = data32 & 0xffff; break;
         }
       }
@@ -460,7 +460,7 @@ void SimulateF100L::alu(uint16_t opcode)
 
       if (r == 1)
       {
-        ea += 1;
+        ea = (ea + 1) & 0xffff;
         memory->write16(n * 2, ea);
       }
         else
@@ -574,9 +574,9 @@ void SimulateF100L::alu(uint16_t opcode)
     case DEST_EA: memory->write16(ea * 2, data); break;
     case DEST_CALL:
       lsp = memory->read16(0) * 2;
-      memory->write16(lsp + 2, pc / 2);
-      memory->write16(lsp + 4, cr.value);
-      lsp += 4;
+      memory->write16((lsp + 2) & 0x1fffe, pc / 2);
+      memory->write16((lsp + 4) & 0x1fffe, cr.value);
+      lsp = (lsp + 4) & 0x1fffe;
       memory->write16(0, lsp / 2);
       pc = ea;
       break;
